@@ -274,7 +274,39 @@ func c17Close(p *chk.Prog, r *chk.Report) {
 		g := rc.Graph()
 		isAsn := func(e ast.Expr) bool { return rc.MatchNew("RET.asn", e) != nil }
 		okCap, nRead := true, 0
-		code65 := g.GPat(true, "CAP.Code == 65")
+		// the capability code: the Code field of the header struct, or the first byte of the two-byte header array
+		hdrByte0 := func(e ast.Expr) bool {
+			b := rc.MatchNew("B[0]", rc.Resolve(e))
+			if b == nil {
+				return false
+			}
+			at, isArr := rc.Info().TypeOf(b["B"]).Underlying().(*types.Array)
+			return isArr && at.Len() == 2 && len(g.FindPat("io.ReadFull(R, B[:])", chk.H("B", func(x ast.Expr) bool { return rc.SameExpr(x, b["B"]) }))) == 1
+		}
+		code65 := chk.GOr(g.GPat(true, "CAP.Code == 65"), g.GPat(true, "C == 65", chk.H("C", hdrByte0)))
+		// the four bytes read into an array and decoded big-endian into the result
+		for _, c := range g.FindPat("io.ReadFull(R, A[:])") {
+			if !g.Dominated(c, code65) {
+				continue
+			}
+			arr := c.Node.(*ast.CallExpr).Args[1].(*ast.SliceExpr).X
+			if at, isArr := rc.Info().TypeOf(arr).Underlying().(*types.Array); !isArr || at.Len() != 4 {
+				continue
+			}
+			nRead++
+			same := func(e ast.Expr) bool { return rc.SameExpr(e, arr) }
+			store := rc.IsAssignPat("RET.asn", "binary.BigEndian.Uint32(A[:])", chk.H("A", same))
+			found := false
+			for _, fb := range g.Find(rc.IsAssignPat("RET.fbasn", "true")) {
+				found = true
+				if g.MustPass(c, func(n ast.Node) bool { return n == fb.Top }, false, store).Found {
+					okCap = false
+				}
+			}
+			if !found {
+				okCap = false
+			}
+		}
 		for _, c := range g.FindPat("binary.Read(R, binary.BigEndian, &T)") {
 			if !g.Dominated(c, code65) {
 				continue
@@ -451,7 +483,10 @@ func c17Pending(p *chk.Prog, r *chk.Report) {
 					}
 				}
 			}
-			ok = ok && okFill && definedBy(g, "map[string]*bgp.Advertisement{}")(stores[0].Node.(*ast.AssignStmt).Rhs[0])
+			fresh := definedBy(g, "map[string]*bgp.Advertisement{}")(stores[0].Node.(*ast.AssignStmt).Rhs[0]) ||
+				definedBy(g, "make(map[string]*bgp.Advertisement)")(stores[0].Node.(*ast.AssignStmt).Rhs[0]) ||
+				definedBy(g, "make(map[string]*bgp.Advertisement, N)")(stores[0].Node.(*ast.AssignStmt).Rhs[0]) // a capacity hint: still empty
+			ok = ok && okFill && fresh
 		}
 		x.Check("Set:always-stores-complete-validated-set-and-wakes", st.Pos(), ok, "", "Set can return success without the complete requested set being pending and the sender woken (e.g. a fast path that compares only with the advertised set and ignores an older pending one)")
 	}
